@@ -73,7 +73,7 @@ from __future__ import annotations
 
 import itertools
 
-from .. import defs, impl, refimpl, s6_c17, u4_c17, v4_c17, v5_c17, v6_c17
+from .. import defs, impl, refimpl, s6_c17, u4_c17, v4_c17, v5_c17, v6_c17, v9_c17
 from ..common import Case, Result, mkrng
 from ..structprops import rand_bytes
 
@@ -116,7 +116,10 @@ def run(env) -> Result:
                 "(b) structures with void members (scalar, fixed arrays, in nested / anonymous structures, arrays of structures, void *), "
                 "alias-valued enums / flags, nested structures, integer unions: equal instances made by two parses / keywords / assignment / "
                 "positionally are ==, and whenever both hashable hash equally and meet in sets / dicts (unhashable: counted), one differing "
-                "member gives !=, bool = any(fields), assigning a fresh void changes nothing. distinct = "
+                "member gives !=, bool = any(fields), assigning a fresh void changes nothing. v9_c17: unions with 1..2 structure members (also "
+                "inside a structure and as array elements), default / zero / one-non-zero-byte (every position) / random / assigned-through-the-"
+                "nested-structure instances: bool() of the instance and of every structure-like member equals any(bool(field)) taken "
+                "recursively (the wrapper of a structure member of a union counts as the structure). distinct = "
                 "(definition, instance bytes, operation); non-trivial = >= 2 fields")
     dc = impl.dc()
     rnd = mkrng(env["seed"], "c17")
@@ -281,6 +284,8 @@ def run(env) -> Result:
     v6_c17.run_values(env, res, viol, mkrng(env["seed"], "c17:v6a"), 60 if tier == "quick" else 1200)
     # void members, alias-valued enums, nested structures, unions: == / hash / bool of equal instances made five ways
     v6_c17.run_special(env, res, viol, mkrng(env["seed"], "c17:v6b"), 150 if tier == "quick" else 4000)
+    # truth value of unions with structure members (handed out through a wrapper) and of their containers: F79, fixed
+    v9_c17.run(env, res, viol, mkrng(env["seed"], "c17:v9"), 25 if tier == "quick" else 600)
     res.sample({"field_counts": counts, "colliding_names": RISKY[:8]})
     return res
 
